@@ -637,6 +637,8 @@ class World:
             self._reap(bid)
             if node.done or not b["progress"] or not self.poll_fixpoint:
                 break
+            if node.blocked and node.blocked[0] == "yield":
+                break  # pre-empted inside its submitter round: the scheduler decides who runs next
 
     # model job processes
     def _launch_job(self, argv, env, stdout, stderr):
@@ -829,6 +831,7 @@ class ModelSoftLock:
         except FileNotFoundError:
             pass
         w.record("unlock", path=os.path.basename(path))
+        w.effect("lock_released", path=path)  # after the marker is gone: a safe pre-emption point
         if w.unlock_observer is not None and not w.in_observer and not w.cur.kill:
             w.in_observer = True
             try:
